@@ -361,6 +361,8 @@ func checkC10(c *Check) {
 		ruleFastReset(c, p, "R10.6")
 		ruleHCReset(c, p, "R10.6")
 	}
+	c.RuleDoc["R10.7"] = "an incomplete block is never reported with a positive count: the count result is written only by return statements (= R11.10)"
+	ruleCountZeroOnError(c, p, "R10.7", "Compressor.CompressBlock", "CompressorHC.CompressBlock")
 }
 
 func checkC11(c *Check) {
@@ -392,6 +394,10 @@ func checkC11(c *Check) {
 		ruleFastReset(c, p, "R11.9")
 		ruleHCReset(c, p, "R11.9")
 	}
+	c.RuleDoc["R11.10"] = "no count is reported together with an error: the count result is written only by return statements (a recovered panic leaves it at zero)"
+	ruleCountZeroOnError(c, p, "R11.10", "Compressor.CompressBlock", "CompressorHC.CompressBlock")
+	c.RuleDoc["R11.11"] = "the pooled entry points CompressBlock / CompressBlockHC return exactly the method's results"
+	ruleWrapperReturnsMethodResult(c, p, "R11.11")
 	c.RuleDoc["R11.6"] = "public entry points forward src and dst unchanged"
 	c.RuleDoc["R11.7"] = "CompressBlockBound(n) >= n + n/255 + 16"
 	c.RuleDoc["R11.8"] = "HC: no index or slice operation that can panic lies outside the deferred recover"
